@@ -17,41 +17,48 @@ CLAIMED = {
     'C05': ('4 C05', 'Every path of the cursor-motion functions and of csi_dispatch for the motion finals is decided by z3 '
             'against closed-form clamping rules with the geometry itself symbolic (1..=140 x 1..=40), so one query covers '
             'every (geometry, cursor, margins, DECOM, parameter) combination inside the bounds; the same finals are also run end '
-            'to end through Parser<Screen> with symbolic parameter digits (an omitted number arrives as 0).'),
+            'to end through Parser<Screen> with symbolic parameter digits (an omitted number arrives as 0), also right after an '
+            'aborted or skipped CSI.'),
     'C07': ('4 C07', 'ED/EL/ECH run from a symbolic pre-state (every cell/row present or absent, symbolic renditions, '
             'cursor at every position) with the selector/count symbolic over absent|0..=9999; the post-grid is compared '
-            'cell by cell with the documented range by z3; also through csi_dispatch and end to end through the recogniser.'),
+            'cell by cell with the documented range by z3; also through csi_dispatch and end to end through the recogniser, '
+            'and on sparsely written remote screens (9x6; thorough up to 258 columns / rows).'),
     'C06': ('4 C06', 'index/reverse_index/linefeed/IL/DL run from symbolic pre-states whose every row is present or absent '
             'with distinct markers, every region and cursor row, symbolic counts; z3 compares each post row with the '
             'documented shifted/blank/untouched source row and that nothing survives in storage beyond the screen; the same '
-            'operations as the recogniser delivers them (ESC D/M/E, LF/VT/FF, CSI L/M). DECSTBM is decided on a symbolic '
-            'geometry in closed form.'),
+            'operations as the recogniser delivers them (ESC D/M/E, LF/VT/FF, CSI L/M), the autowrap scroll for narrow and wide characters, and tall remote screens '
+            '(2x9; thorough up to 258 rows). DECSTBM is decided on a symbolic geometry in closed form.'),
     'C13': ('4 C13', 'ICH/DCH single steps against the list-splice rule, plus two-step (thorough three-step) edit '
-            'sequences over {ICH,DCH,EL,ECH,draw,IRM-draw} whose last step must obey the rule relative to what was '
-            'visible before it, which is what makes a reappearing discarded cell a solver witness; CSI @ / CSI P end to end.'),
+            'sequences over {ICH,DCH,EL,ECH,draw,IRM-draw,resize} whose last step must obey the rule relative to what was '
+            'visible before it, which is what makes a reappearing discarded cell a solver witness; CSI @ / CSI P end to end; '
+            'wide remote rows (9 columns; thorough 17 and 258).'),
     'C04': ('4 C04', 'draw of one character of each width class from symbolic pre-states against a reference placement '
             'semantics; strings are lifted by a relational check (one call == one call per character) decided by z3 '
-            'over two runs of the implementation.'),
+            'over two runs of the implementation; one fully symbolic code point per width class (class decided by the real '
+            'unicode-width table) must be stored unchanged; remote screens (9x6; thorough up to 258 columns / rows).'),
     'C09': ('4 C09', 'Inductive: the well-formedness statement is established by Screen::new for symbolic sizes and preserved '
             'by every listener method, resize (symbolic target sizes) and display from an arbitrary symbolic well-formed '
-            'state; each clause is a separate solver query per path.'),
+            'state; each clause is a separate solver query per path; the geometry-dependent operations are repeated on a '
+            'sparsely written 9x6 (thorough + 17x9) screen.'),
     'C17': ('4 C17', 'For every operation of the sweep from a symbolic state with a just-cleared dirty set, z3 decides that '
             'every row whose observable cells changed is in the dirty set, that screen-wide operations mark all rows, and '
-            'that no index outside the screen is present, also for resize followed by a further operation.'),
+            'that no index outside the screen is present, also for resize followed by a further operation and on a sparsely '
+            'written 9x6 (thorough + 17x9) screen.'),
     'C10': ('4 C10', 'display() output against a reference rendering over every arrangement of narrow/wide/placeholder/'
             'combining/absent cells; purity as a relational lemma decided by z3 over two runs of every operation from '
             'states that differ only in an arbitrary symbolic set of materialised blanks (what display() does).'),
     'C14': ('4 C14', 'save_cursor/restore_cursor single steps with a symbolic stack (depth 0..2, symbolic saved positions, '
             'renditions, charset state, DECOM/DECAWM) on a symbolic geometry; z3 decides exact-copy push, LIFO pop, '
             'clamping into screen and region, one-way re-enabling of DECOM/DECAWM, and that every other operation leaves '
-            'the stack untouched (induction gives nested pairs).'),
+            'the stack untouched (induction gives nested pairs); deep stacks of 15..256 (thorough up to 1025) entries.'),
     'C15': ('4 C15', 'reset() from an arbitrary symbolic state is compared field for field with Screen::new executed in the '
             'same engine (concrete geometries and a symbolic one); a relational non-interference query per operation '
             'shows the saved-cursor stack is read only by restore_cursor.'),
     'C16': ('4 C16', 'resize to symbolic target sizes from symbolic states against the crop/extend rule on the observable '
             'grid, plus two-step sequences (an edit or a resize, then a resize) whose second step is judged relative to '
             'what was visible, so hidden cells/rows that reappear on growth are solver witnesses; the DECCOLM 132-column round '
-            'trip incl. a stale remembered width.'),
+            'trip incl. a stale remembered width and from screens of 133 and 256 (thorough 131..512) columns; remote '
+            'sizes around the 8-bit boundary, one dimension at a time.'),
     'C18': ('4 C18', 'HT/HTS/TBC and the default stops decided on a symbolic width 1..=140 with up to three symbolic stops '
             '(stale stops beyond the width included); the sort and scan of tab() are executed symbolically; resize leaves '
             'the stop set untouched.'),
@@ -62,7 +69,7 @@ CLAIMED = {
     'C12': ('4 C12', 'set_mode/reset_mode with lists of symbolic mode numbers and a symbolic private flag from symbolic '
             'states; z3 decides the resulting mode set for an arbitrary probe number and every documented side effect '
             '(132-column switch executed for real, homing, reverse video on every cell, visibility), plus the DECCOLM '
-            'round trip.'),
+            'round trip, also from never-written screens wider than 132 (133, 256; thorough 131..512) columns.'),
     'C20': ('4 C20', 'The four 256-entry tables are compared with independently transcribed tables by one solver query per '
             'table over a symbolic index; draw of a symbolic code point is compared with the reference translation for '
             'every G0/G1 designation and shift state; SO/SI/designation through the API and the recogniser.'),
@@ -81,7 +88,7 @@ CLAIMED = {
     'C19': ('4 C19', 'Parser<Screen> on OSC strings with a symbolic code character and unconstrained symbolic payload characters '
             'for both introducers and all three terminators (and embedded ESC x pairs, empty payload, every cut): z3 '
             'decides title/icon == payload exactly and that nothing else differs from drawing the trailing character alone; '
-            'two strings in a row show that nothing leaks from one into the next.'),
+            'two strings in a row (also with a full reset between them) show that nothing leaks from one into the next.'),
     'C01': ('4 C01', 'Every panic edge of the MIR (overflow asserts, index/unwrap/expect, explicit panics, mutex re-lock) and '
             'the step budget are path outcomes; z3 shows none is feasible (a) for every listener method, resize and '
             'display from arbitrary symbolic well-formed states, with well-formedness re-established (induction over '
